@@ -237,3 +237,32 @@ func TestGovcReplayJoin(t *testing.T) {
 	}
 	fmt.Println("NOT-REPRODUCED: rule application agrees with the brute-force reference on the join corpus")
 }
+
+// TestGovcReplayEvaluateUnbound: C10/C06 — an expression over a variable that the
+// bindings do not contain must be an error, never a panic.
+func TestGovcReplayEvaluateUnbound(t *testing.T) {
+	for _, e := range []Expression{
+		{Value{Variable(1)}},
+		{Value{Variable(1)}, Value{Integer(1)}, BinaryOp{Equal{}}},
+		{Value{Integer(1)}, Value{Variable(9)}, BinaryOp{Add{}}},
+	} {
+		var perr interface{}
+		var res Term
+		var err error
+		func() {
+			defer func() { perr = recover() }()
+			res, err = e.Evaluate(map[Variable]*Term{}, &SymbolTable{})
+		}()
+		if perr != nil {
+			fmt.Printf("REPRODUCED: Evaluate of an expression over an unbound variable panics: %v\n", perr)
+			t.Fail()
+			return
+		}
+		if err == nil {
+			fmt.Printf("REPRODUCED: Evaluate of an expression over an unbound variable returns %v without an error\n", res)
+			t.Fail()
+			return
+		}
+	}
+	fmt.Println("NOT-REPRODUCED: unbound variables are reported as errors")
+}
